@@ -159,6 +159,18 @@ MUL_OPERANDS = [0, 1, -1, 2, -2, 3, 46340, 46341, -46341, 2**15, -2**15, 2**16, 
 ADD_OPERANDS = [0, 1, -1, 2, -2, 7, 2**30, -2**30, 2**31 - 2, 2**31 - 1, -2**31, -2**31 + 1]
 RANGE_ENDS = [V.INT_MIN, V.INT_MIN + 1, V.INT_MIN + 2, -1, 0, 1, V.INT_MAX - 2, V.INT_MAX - 1, V.INT_MAX]
 
+IDENTITY_OPS = ["Concat", "Append", "Union", "Intersect", "SetMinus", "SubsetEq", "In", "NotIn", "Plus", "Minus", "Times", "Div", "Mod", "Pow",
+                "Le", "Lt", "Ge", "Gt", "DotDot", "And", "Or", "Implies", "Equiv", "Eq", "Neq", "AtAt", "ColonGt", "Apply", "CrossProduct",
+                "MakeFunctionSet", "Assert"]
+IDENTITY_ELEMENTS = [["n", 0], ["n", 1], ["n", -1], ["b", True], ["b", False], ["T", []], ["S", []], ["s", ""]]
+_SEQ, _SET, _INT, _BOOL = [["T", []], ["s", ""]], [["S", []]], [["n", 0], ["n", 1], ["n", -1]], [["b", True], ["b", False]]
+OP_IDENTITIES = {"Concat": _SEQ, "Append": _SEQ, "Union": _SET, "Intersect": _SET, "SetMinus": _SET, "SubsetEq": _SET, "In": _SET, "NotIn": _SET,
+                 "CrossProduct": _SET, "MakeFunctionSet": _SET, "Plus": _INT, "Minus": _INT, "Times": _INT, "Div": _INT, "Mod": _INT, "Pow": _INT,
+                 "Le": _INT, "Lt": _INT, "Ge": _INT, "Gt": _INT, "DotDot": _INT, "And": _BOOL, "Or": _BOOL, "Implies": _BOOL, "Equiv": _BOOL,
+                 "Assert": _BOOL, "AtAt": _SEQ + _SET, "Apply": _SEQ + _SET, "ColonGt": _SEQ}
+ONE_OF_EVERY_KIND = [["b", True], ["b", False], ["n", 0], ["n", 1], ["n", 5], ["s", ""], ["s", "a"], ["S", []], ["S", [["n", 1], ["n", 2]]],
+                     ["T", []], ["T", [["n", 1]]], ["F", [[["s", "a"], ["n", 1]]]], ["d"]]
+
 PREDS1 = [["true"], ["false"], ["isnum"], ["gt", ["n", 0]], ["gt", ["n", 2]], ["eq", ["n", 1]], ["neq", ["n", 1]], ["in", ["S", [["n", 1], ["n", 2], ["s", "a"]]]], ["asbool"]]
 PREDS2 = [["true"], ["false"], ["lt2"], ["eq2"], ["isnum"]]
 BODIES1 = [["id"], ["const", ["n", 7]], ["tuple"], ["plus", ["n", 1]], ["plus", ["n", 2147483647]], ["single"], ["isnum"], ["mod", ["n", 2]], ["last"]]
@@ -468,6 +480,24 @@ def boundary_grids():
                 out.append({"op": "DotDot", "args": [["n", a], ["n", b]], "kind": "grid"})
     for x in MUL_OPERANDS:
         out.append({"op": "Neg", "args": [["n", x]], "kind": "grid"})
+    # identity / absorbing element of SOME kind x one value of EVERY kind, in both positions, for every binary
+    # operator: fast paths around identities (<<>> \\o s = s, {} \\cup s = s, 0 + x, x * 1, x ^ 0, TRUE /\\ x ...) are where a
+    # type check gets skipped
+    seen = set()
+    for op in IDENTITY_OPS:
+        for e in OP_IDENTITIES.get(op, IDENTITY_ELEMENTS):
+            for x in ONE_OF_EVERY_KIND:
+                for args in ([e, x], [x, e]):
+                    key = json.dumps([op, args])
+                    if key not in seen:
+                        seen.add(key)
+                        out.append({"op": op, "args": json.loads(json.dumps(args)), "kind": "grid"})
+    for e in [["T", []], ["s", ""], ["S", []], ["n", 0]]:
+        for x in ONE_OF_EVERY_KIND:
+            out.append({"op": "SubSeq", "args": [e, x, ["n", 1]], "kind": "grid"})
+            out.append({"op": "SubSeq", "args": [["T", []], ["n", 1], x], "kind": "grid"})
+            out.append({"op": "If", "args": [x, e, e], "kind": "grid"})
+            out.append({"op": "CrossProduct", "args": [e, x, ["S", []]], "kind": "grid"})
     return out
 
 
